@@ -26,6 +26,7 @@ theorems below say what that means on the wire.
 -/
 import NtpVerif.Proofs.Server
 import NtpVerif.Proofs.ServerNts
+import NtpVerif.Proofs.ServerWire
 
 namespace NtpVerif.C19
 open NtpVerif.Server NtpVerif.RespSize
@@ -122,6 +123,57 @@ theorem time_answer_has_authenticator {info env req alg r}
     have h8 : Gen.MAX_COOKIES = 8 := rfl
     omega
   exact ⟨hne, fun ⟨_, he⟩ => hne he⟩
+
+/-- `CookiePresent` is a theorem about the parser model: for every datagram, decryption table whose entries carry
+    a 16-octet tag (`TagLen`: AES-SIV) and key set, the request record derived from `Packet.parse` holds, among
+    its authenticated fields, a cookie field at least as long as a fresh cookie whenever it reports a cookie. -/
+theorem cookiePresent_reqOf (T : Wire.Table) (hT : ServerParse.TagLen T) (ks : Wire.KeySet) (data : List UInt8)
+    (fv encw alg : Nat) (h : (reqOf T.decrypt ks data fv encw).cookie = some alg) :
+    CookiePresent (reqOf T.decrypt ks data fv encw) alg := by
+  unfold reqOf at h ⊢
+  cases hp : Wire.parse T.decrypt (.keyset ks) data with
+  | ok p cookie =>
+    simp only [hp] at h ⊢
+    have hr : Wire.parseR T.decrypt (.keyset ks) data = .ok (p, cookie, true) := by
+      unfold Wire.parse at hp
+      split at hp <;> first | (cases hp; done) | (cases hp; assumption)
+    cases cookie with
+    | none => simp [reqOfPacket] at h
+    | some c =>
+      have halg : c.alg = alg := by simpa [reqOfPacket] using h
+      obtain ⟨b, hb, hd⟩ := ServerParse.parseR_cookie hr
+      have hl := ServerParse.decodeCookie_length hT hd
+      refine ⟨b.length, by rw [← halg]; exact hl, ?_⟩
+      simp only [reqOfPacket, List.mem_map]
+      exact ⟨.cookie b, hb, rfl⟩
+  | decryptErr p => simp [hp, reqOfPacket] at h
+  | err e => simp [hp, reqNone] at h
+  | panic => simp [hp, reqNone] at h
+  | fuel => simp [hp, reqNone] at h
+
+/-- **Byte-level form.**  For every datagram, key set and tag-length-respecting decryption table: if the server
+    answers the request derived from the bytes with a time answer flagged NTS, the answer carries at least one
+    fresh cookie — hence an encrypted field and an authenticator.  No hypothesis about the request remains. -/
+theorem time_answer_has_authenticator_wire (cfg : Config) (info : Info) (env : Env) (T : Wire.Table)
+    (hT : ServerParse.TagLen T) (ks : Wire.KeySet) (data : List UInt8) (fv encw : Nat) {r n v reason}
+    (h : handle cfg info env (reqOf T.decrypt ks data fv encw) = .respond r n [⟨v, true, reason, .time⟩]) :
+    r.enc ≠ [] ∧ HasAuthenticator r := by
+  obtain ⟨a, reason', nts, c, hs, hb, _, _, _, hc, hnts⟩ := handle_respond_full h
+  simp only [List.cons.injEq, Stat.mk.injEq, and_true] at hs
+  obtain ⟨_, hn, _, ha⟩ := hs
+  subst hn ha
+  have hsome : c.isSome = true := by
+    rcases hnts.mp rfl with h1 | h1
+    · exact h1
+    · cases h1
+  cases c with
+  | none => simp at hsome
+  | some alg =>
+    have hck : (reqOf T.decrypt ks data fv encw).cookie = some alg := by
+      rcases hc with ⟨_, h2⟩ | ⟨_, h2⟩
+      · exact h2.symm
+      · cases h2
+    exact time_answer_has_authenticator hb (cookiePresent_reqOf T hT ks data fv encw alg hck)
 
 /-- cookie and placeholder fields of the request (all of them are looked at; the first eight long enough ones
     are replaced) -/
@@ -449,5 +501,7 @@ end NtpVerif.C19
 #print axioms NtpVerif.C19.fresh_cookie_bounds
 #print axioms NtpVerif.C19.cookies_only_encrypted
 #print axioms NtpVerif.C19.time_answer_has_authenticator
+#print axioms NtpVerif.C19.cookiePresent_reqOf
+#print axioms NtpVerif.C19.time_answer_has_authenticator_wire
 #print axioms NtpVerif.C19.time_answer_authenticates
 #print axioms NtpVerif.C19.fresh_cookies_decode_to_session_keys
